@@ -65,6 +65,9 @@ def drvStep (q : Queue) (ws : List String) : Queue × String :=
     match i.toNat?, (if p == "qn" then some Kind.notification else if p == "qi" then some Kind.indication else none) with
     | some i, some k => (q, irqOutcomes q (k, i) true)
     | _, _ => (q, "bad-op")
+  | ["confpdu", h] => match parseHex h with
+    | some (b :: bs) => let (q', r) := handleValueConfirmation q (b :: bs); (q', toHex r)
+    | _ => (q, "bad-op")
   | ["stress", _] => (q, "stress")
   | _ => (q, "bad-op")
 
